@@ -268,6 +268,8 @@ type SiteDB struct {
 	Fields     []*FieldAccess
 	Exprs      map[ast.Node]*HState // state before index / slice expressions
 	Blocking   []*Site              // channel operations, select statements, go statements (Callee: "<-chan", "chan<-", "select", "go")
+	DeepBlocking []*Site            // the same inside callees analysed in place (Root = the root function, Inl set)
+	CountIn    map[string]map[string]bool // root function key -> callee keys whose calls are counted per path (facts #c1_<key>, #c2_<key>)
 	LockAcqs   []*LockAcq
 }
 
@@ -731,7 +733,9 @@ func objsIn(info *types.Info, e ast.Node) []types.Object {
 func buildSiteDB(l *Loaded, pkgs ...string) *SiteDB {
 	db := &SiteDB{L: l, Calls: map[string][]*Site{}, ByFunc: map[*FuncInfo][]*Site{}, atomObjs: map[string][]types.Object{},
 		EntryMust: map[*types.Func]map[string]bool{}, EntryMay: map[*types.Func]map[string]bool{}, Exits: map[*FuncInfo][]*ExitRec{},
-		wlocks: map[*types.Func][]wlock{}}
+		wlocks: map[*types.Func][]wlock{},
+		// the reply discipline of the server loop is judged per path (C06.r1)
+		CountIn: map[string]map[string]bool{"p9.connState.handleRequest": {"p9.send": true}}}
 	db.Wrappers = findWrappers(l, pkgs...)
 	for _, w := range db.Wrappers {
 		db.wlocks[w.Fn] = db.wrapperLocks(w)
@@ -755,6 +759,7 @@ func buildSiteDB(l *Loaded, pkgs ...string) *SiteDB {
 		db.DeepFields = nil
 		db.Fields = nil
 		db.Blocking = nil
+		db.DeepBlocking = nil
 		db.LockAcqs = nil
 		db.Exprs = map[ast.Node]*HState{}
 		for _, fi := range funcs {
@@ -1086,6 +1091,7 @@ func translateLocks(s *Site, callee *FuncInfo, info *types.Info, l *Loaded) held
 func (db *SiteDB) analyse(fi *FuncInfo) {
 	info := fi.Pkg.TypesInfo
 	l := db.L
+	counted := db.CountIn[fi.Key]
 	resCache := map[ast.Node]*resolver{}
 	resFor := func(fn ast.Node) *resolver {
 		// Aliases are resolved within the enclosing declaration (literals share its locals).
@@ -1236,6 +1242,19 @@ func (db *SiteDB) analyse(fi *FuncInfo) {
 			}
 			s.Must[key] = true
 			s.May[key] = true
+			if counted[key] {
+				// per-path call count, saturating at two
+				c1, c2 := countFact(1, key), countFact(2, key)
+				for _, p := range s.Paths {
+					if v, ok := p[c1]; ok && v {
+						if _, ok := p[c2]; ok {
+							p[c2] = true
+						}
+					} else if ok {
+						p[c1] = true
+					}
+				}
+			}
 		})
 		// Kills and definitions.
 		switch v := n.(type) {
@@ -1457,6 +1476,13 @@ func (db *SiteDB) analyse(fi *FuncInfo) {
 		if returnsErr && len(s.Paths) <= budget {
 			return s
 		}
+		// A function that is not part of the pinned tree is a helper introduced by a
+		// refactoring: its decisions are the caller's decisions moved elsewhere, and the rules
+		// that classify the caller's exits need them (dispatch(tag, m) containing the
+		// StartTag test).  They are kept while the path set stays small.
+		if fobj, ok := info.Defs[sub.Inl.Name].(*types.Func); ok && !pinnedFuncs[funcKey(fobj)] && len(s.Paths) <= 16 {
+			return s
+		}
 		known := entryAtoms[sub]
 		seen := map[string]bool{}
 		var kept []FactSet
@@ -1591,21 +1617,6 @@ func (db *SiteDB) analyse(fi *FuncInfo) {
 			}
 			return true
 		})
-		if len(inl) > 0 {
-			// Inside a callee analysed in place: the callee's own analysis records its sites;
-			// here they are kept apart, for the rules that follow an operation into helpers.
-			inspectNoLit(n, func(m ast.Node) {
-				switch v := m.(type) {
-				case *ast.CallExpr:
-					db.Deep[fi] = append(db.Deep[fi], &Site{Node: n, Call: v, Callee: calleeKey(info, v), Fn: fc.Fn, Root: fi, St: snap, Ctx: chain, Inl: inl, Res: res})
-				case *ast.SelectorExpr:
-					if fld := fieldOf(info, v); fld != nil {
-						db.DeepFields = append(db.DeepFields, &FieldAccess{Sel: v, Field: fld, Key: l.fieldKey(fld), Write: isWriteTarget(l, v), Root: fi, Inl: inl, Res: res, Fn: fc.Fn, St: snap})
-					}
-				}
-			})
-			return
-		}
 		// a channel operation that is the communication of a select with a default clause never waits
 		nonBlocking := func(m ast.Node) bool {
 			for p := l.parent(m); p != nil; p = l.parent(p) {
@@ -1635,6 +1646,33 @@ func (db *SiteDB) analyse(fi *FuncInfo) {
 				}
 			}
 			return false
+		}
+		if len(inl) > 0 {
+			// Inside a callee analysed in place: the callee's own analysis records its sites;
+			// here they are kept apart, for the rules that follow an operation into helpers.
+			switch v := n.(type) {
+			case *ast.GoStmt:
+				db.DeepBlocking = append(db.DeepBlocking, &Site{Node: v, Callee: "go", Fn: fc.Fn, Root: fi, St: snap, Ctx: chain, Inl: inl, Res: res})
+			case *ast.SelectStmt:
+				db.DeepBlocking = append(db.DeepBlocking, &Site{Node: v, Callee: "select", Fn: fc.Fn, Root: fi, St: snap, Ctx: chain, Inl: inl, Res: res, NonBlocking: selectHasDefault(v)})
+			case *ast.SendStmt:
+				db.DeepBlocking = append(db.DeepBlocking, &Site{Node: v, Callee: "chan<-", Fn: fc.Fn, Root: fi, St: snap, Ctx: chain, Inl: inl, Res: res, NonBlocking: nonBlocking(v)})
+			}
+			inspectNoLit(n, func(m ast.Node) {
+				switch v := m.(type) {
+				case *ast.UnaryExpr:
+					if v.Op == token.ARROW {
+						db.DeepBlocking = append(db.DeepBlocking, &Site{Node: v, Callee: "<-chan", Fn: fc.Fn, Root: fi, St: snap, Ctx: chain, Inl: inl, Res: res, NonBlocking: nonBlocking(v)})
+					}
+				case *ast.CallExpr:
+					db.Deep[fi] = append(db.Deep[fi], &Site{Node: n, Call: v, Callee: calleeKey(info, v), Fn: fc.Fn, Root: fi, St: snap, Ctx: chain, Inl: inl, Res: res})
+				case *ast.SelectorExpr:
+					if fld := fieldOf(info, v); fld != nil {
+						db.DeepFields = append(db.DeepFields, &FieldAccess{Sel: v, Field: fld, Key: l.fieldKey(fld), Write: isWriteTarget(l, v), Root: fi, Inl: inl, Res: res, Fn: fc.Fn, St: snap})
+					}
+				}
+			})
+			return
 		}
 		switch v := n.(type) {
 		case *ast.GoStmt:
@@ -1701,6 +1739,10 @@ func (db *SiteDB) analyse(fi *FuncInfo) {
 		db.Exits[fi] = append(db.Exits[fi], &ExitRec{Ret: ret, Fn: fc.Fn, St: hCopy(s)})
 	}
 	init := newHState()
+	for k := range counted {
+		init.Paths[0][countFact(1, k)] = false
+		init.Paths[0][countFact(2, k)] = false
+	}
 	for t := range db.EntryMust[fi.Obj] {
 		init.Locks[t] = true
 	}
@@ -2011,4 +2053,28 @@ func meetLocks(a, b map[string]bool) map[string]bool {
 		}
 	}
 	return o
+}
+
+// countFact names the path fact "at least n calls of key so far" (see SiteDB.CountIn).  The
+// name is not a Go identifier, so no assignment can kill it.
+func countFact(n int, key string) string {
+	return fmt.Sprintf("#c%d_%s", n, strings.NewReplacer(".", "_", "*", "", "(", "", ")", "").Replace(key))
+}
+
+// pathCount reads the number of calls of key made on path p of a function listed in
+// SiteDB.CountIn: 0, 1 or 2 (two or more); known is false when the facts were lost (paths
+// collapsed beyond the budget).
+func pathCount(p FactSet, key string) (n int, known bool) {
+	v1, ok1 := p[countFact(1, key)]
+	v2, ok2 := p[countFact(2, key)]
+	if !ok1 || !ok2 {
+		return 0, false
+	}
+	switch {
+	case v2:
+		return 2, true
+	case v1:
+		return 1, true
+	}
+	return 0, true
 }
